@@ -135,3 +135,45 @@ def sha(x) -> str:
     if not isinstance(x, str):
         x = dumps(x)
     return hashlib.sha256(x.encode('utf-8')).hexdigest()[:16]
+
+
+# ---- fast structural fingerprints (compared with ==, never serialised) -------------------------
+
+def _fp_marker(e):
+    v = getattr(e, 'variable', None)
+    if v is not None or type(e).__name__ == 'Push':
+        return ('Push', v)
+    idx = getattr(e, 'indices', None)
+    if idx is not None:
+        return (type(e).__name__, tuple(idx), e.prefix)
+    return (type(e).__name__,)
+
+
+def _fp_node(node):
+    var, branches = node
+    out = []
+    for b in branches:
+        tgt = b[1]
+        if tgt is None or isinstance(tgt, (str, int, float)):
+            out.append((b[0], tgt, type(tgt).__name__))
+        else:
+            out.append((b[0], _fp_node(tgt)))
+    return (var, tuple(out))
+
+
+def fingerprint(x):
+    """Hashable structural fingerprint of a shared object, independent of dict insertion order
+    of the marker map and of object identity."""
+    from penman.graph import Graph
+    from penman.tree import Tree
+    from penman.model import Model
+    if isinstance(x, Graph):
+        return ('G', tuple(x.triples), x._top,
+                frozenset((k, tuple(_fp_marker(e) for e in v)) for k, v in x.epidata.items()),
+                tuple(x.metadata.items()))
+    if isinstance(x, Tree):
+        return ('T', _fp_node(x.node), tuple(x.metadata.items()))
+    if isinstance(x, Model):
+        return ('M', type(x).__name__, x.top_variable, x.top_role, x.concept_role, repr(x.roles),
+                repr(x.normalizations), repr(x.reifications), repr(x.dereifications), x._role_re.pattern)
+    return ('O', dumps(canon(x)))
